@@ -848,14 +848,31 @@ func ruleDispatchDelegation(pkgs []string, floor int) ruleFunc {
 		}
 		n := 0
 		for _, pk := range pkgs {
-			fn := p.funcByShortKey(pk + ".Geometry")
+			// "pkg" : the generic function is pkg.Geometry and the helpers are named after the kinds;
+			// "pkg:generic": the generic function is pkg.generic and the helpers are the kind names with a lower-case
+			// first letter (simplify.simplify -> ring, lineString, multiPolygon ...)
+			generic, lower := "Geometry", false
+			if i := strings.Index(pk, ":"); i >= 0 {
+				pk, generic, lower = pk[:i], pk[i+1:], true
+			}
+			helper := func(kind string) string {
+				if lower {
+					return strings.ToLower(kind[:1]) + kind[1:]
+				}
+				return kind
+			}
+			kindOfHelper := map[string]string{}
+			for name := range kindNames {
+				kindOfHelper[helper(name)] = name
+			}
+			fn := p.funcByShortKey(pk + "." + generic)
 			if fn == nil {
-				c.R.Unknown("K6-dispatch-delegation", pk+".Geometry", "", "not found")
+				c.R.Unknown("K6-dispatch-delegation", pk+"."+generic, "", "not found")
 				continue
 			}
 			has := map[string]bool{}
 			for name := range kindNames {
-				if f := p.funcByShortKey(pk + "." + name); f != nil {
+				if f := p.funcByShortKey(pk + "." + helper(name)); f != nil {
 					has[name] = true
 				}
 			}
@@ -899,17 +916,17 @@ func ruleDispatchDelegation(pkgs []string, floor int) ruleFunc {
 								continue
 							}
 							cal := call.Call.StaticCallee()
-							if cal == nil || cal.Pkg != fn.Pkg || !kindNames[cal.Name()] {
+							if cal == nil || cal.Pkg != fn.Pkg || kindOfHelper[cal.Name()] == "" {
 								continue
 							}
-							called[cal.Name()] = p.InstrPos(call)
+							called[kindOfHelper[cal.Name()]] = p.InstrPos(call)
 						}
 					}
 					if !has[k] && len(called) == 0 {
 						continue // no function of that name: the arm handles the kind itself
 					}
 					n++
-					cons := fmt.Sprintf("%s.Geometry#%s", pk, k)
+					cons := fmt.Sprintf("%s.%s#%s", pk, generic, k)
 					bad := ""
 					for name, pos := range called {
 						if name != k {
